@@ -294,3 +294,128 @@ class ModelFSSpec:
 
     def __str__(self):
         return "ModelFSSpec"
+
+
+# ------------------------------------------------------------------------------------------------
+# executors
+# ------------------------------------------------------------------------------------------------
+class ModelFuture:
+    def __init__(self, ex, fn, args, kwargs, idx):
+        self.ex, self.fn, self.args, self.kwargs, self.idx = ex, fn, args, kwargs, idx
+        self.state = "pending"
+        self.value = None
+        self.exc = None
+        self.consumed = False
+
+    def _run(self):
+        if self.state != "pending":
+            return
+        self.ex.run_order.append(self.idx)
+        try:
+            self.value = self.fn(*self.args, **self.kwargs)
+            self.state = "done"
+        except Exception as e:          # noqa
+            self.exc = e
+            self.state = "failed"
+
+    def done(self):
+        return self.state != "pending"
+
+    def result(self, timeout=None):
+        self.ex._progress(exclude=self)
+        self._run()
+        if not self.consumed:
+            self.consumed = True
+            self.ex.in_flight -= 1
+        if self.state == "failed":
+            raise self.exc
+        return self.value
+
+
+class ModelExecutor:
+    """concurrent.futures executor model.  A submitted task runs at a symbolic point between
+    `submit` and the first `result()` on its future: at every later submit/result event each still
+    pending task may run (symbolic Boolean per (event, task)); exceptions surface in result().
+    `map` yields results in submission order (documented guarantee)."""
+
+    log = None
+
+    def __init__(self, ctx, kind="pool", horizon=4):
+        self.ctx = ctx
+        self.kind = kind
+        self.instances = []
+        self.horizon = horizon
+        ModelExecutor.made = getattr(ModelExecutor, "made", 0)
+        self.uid = ModelExecutor.made_in_path(ctx)
+
+    @staticmethod
+    def made_in_path(ctx):
+        n = getattr(ctx, "_n_model_executors", 0)
+        ctx._n_model_executors = n + 1
+        return n
+
+    def __call__(self, max_workers=None, **kw):
+        ex = _ExecutorInstance(self.ctx, max_workers, self)
+        self.instances.append(ex)
+        return ex
+
+
+class _ExecutorInstance:
+    count = 0
+
+    def __init__(self, ctx, max_workers, parent):
+        self.ctx = ctx
+        self.max_workers = max_workers
+        self.futures = []
+        self.in_flight = 0
+        self.max_in_flight = 0
+        self.run_order = []
+        self.events = 0
+        self.closed = False
+        self.horizon = parent.horizon
+        _ExecutorInstance.count += 1
+        self.uid = len(parent.instances) + 10 * parent.uid
+
+    def _progress(self, exclude=None):
+        """an event (submit / result call): every pending task whose symbolic completion point has
+        been reached runs now"""
+        ev = self.events
+        self.events += 1
+        for f in self.futures:
+            if f.state == "pending" and f is not exclude and f.run_at <= ev:
+                f._run()
+
+    def submit(self, fn, *args, **kwargs):
+        if self.closed:
+            raise RuntimeError("cannot schedule new futures after shutdown")
+        self._progress()
+        f = ModelFuture(self, fn, args, kwargs, len(self.futures))
+        # symbolic completion point: the event index at (or after) which the task has run
+        ra = self.ctx.int("pool%d_task%d_completes_at_event" % (self.uid, f.idx), self.events,
+                          self.events + self.horizon)
+        f.run_at = ra.__index__() if hasattr(ra, "__index__") and not isinstance(ra, int) else int(ra)
+        self.futures.append(f)
+        self.in_flight += 1
+        self.max_in_flight = max(self.max_in_flight, self.in_flight)
+        return f
+
+    def map(self, fn, *iterables, timeout=None, chunksize=1):
+        futs = [self.submit(fn, *a) for a in zip(*iterables)]
+
+        def gen():
+            for f in futs:
+                yield f.result()
+        return gen()
+
+    def shutdown(self, wait=True, **k):
+        if wait:
+            for f in self.futures:
+                f._run()
+        self.closed = True
+
+    def __enter__(self):
+        return self
+
+    def __exit__(self, *exc):
+        self.shutdown(wait=True)
+        return False
